@@ -106,9 +106,14 @@ class ProxyCommand(ClosingContextManager):
 
                 r, w, x = select([self.process.stdout], [], [], select_timeout)
                 if r and r[0] == self.process.stdout:
-                    buffer += os.read(
+                    data = os.read(
                         self.process.stdout.fileno(), size - len(buffer)
                     )
+                    if not data:
+                        # end of file: the command exited / closed its
+                        # stdout; report it like a socket does
+                        break
+                    buffer += data
             return buffer
         except socket.timeout:
             if buffer:
